@@ -9,7 +9,7 @@ IntegralRangeIterator and DenseIterator-as-base are lawful.
 Part B: the hand-written IntegralRangeIterator, IndexedIterator.
 Part C: ranges.   Part D: hybrid helpers.
 -/
-import DuneVerif.Proofs.C16Ranges
+import DuneVerif.Proofs.C16Extra
 
 namespace DV.C16
 
@@ -37,15 +37,14 @@ theorem advance_n_eq_n_steps (h : LawfulCore k pos same) (i : I) (n : Int) :
 theorem advance_pos (h : LawfulCore k pos same) (i : I) (n : Int) :
     pos (Legacy.plus k i n) = pos i + n ∧ pos (Legacy.minus k i n) = pos i - n ∧
     pos (steps (Legacy.preInc k) (Legacy.preDec k) i n) = pos i + n := by
-  refine ⟨h.pos_adv i n, ?_, ?_⟩
-  · show pos (k.advance i (-n)) = pos i - n
-    rw [h.pos_adv]; omega
-  · rw [← (advance_n_eq_n_steps h i n).2.1]; exact h.pos_adv i n
+  refine ⟨by rw [Legacy.plus_spec]; exact h.pos_adv i n, ?_, ?_⟩
+  · rw [Legacy.minus_spec, h.pos_adv]; omega
+  · rw [← (advance_n_eq_n_steps h i n).2.1, Legacy.plus_spec]; exact h.pos_adv i n
 
 /-- `(a + n) - a == n` and `a - b` is the difference of the positions, in both `is_convertible` branches -/
 theorem diff_consistent (h : LawfulCore k pos same) (conv : Bool) (a b : I) (n : Int) :
     Legacy.diff k conv (Legacy.plus k a n) a = n ∧ Legacy.diff k conv a b = pos a - pos b := by
-  cases conv <;> simp [Legacy.diff, Legacy.plus, h.dist, h.pos_adv] <;> omega
+  cases conv <;> simp [Legacy.diff_spec, Legacy.plus_spec, h.dist, h.pos_adv] <;> omega
 
 /-- the four relational operators are the order of the positions, in both `is_convertible` branches;
 equality is equality of positions within one container -/
@@ -62,10 +61,10 @@ theorem rel_ops_are_position_order (h : LawfulCore k pos same) (conv : Bool) (l 
     have := h.equals_iff a b hs
     cases hq : k.equals a b <;> simp [hq] at this ⊢ <;> exact this
   refine ⟨?_, ?_, ?_, ?_, ?_, ?_, ?_⟩
-  · cases conv <;> simp [Legacy.lt, h.dist] <;> omega
-  · cases conv <;> simp [Legacy.le, h.dist] <;> omega
-  · cases conv <;> simp [Legacy.gt, h.dist] <;> omega
-  · cases conv <;> simp [Legacy.ge, h.dist] <;> omega
+  · cases conv <;> simp [Legacy.lt_spec, h.dist] <;> omega
+  · cases conv <;> simp [Legacy.le_spec, h.dist] <;> omega
+  · cases conv <;> simp [Legacy.gt_spec, h.dist] <;> omega
+  · cases conv <;> simp [Legacy.ge_spec, h.dist] <;> omega
   · intro hs
     cases conv
     · simp only [Legacy.eq, Bool.false_eq_true, if_false, eqv r l (h.same_symm l r hs)]
